@@ -1,10 +1,11 @@
 (* C06Check: the implementation's == on pairs of configurations against Eq.cfg_eq. *)
-From Fiddle Require Import PyBase PySlice Sig ArgStore PyCall Heap Traverse Eq.
+From Fiddle Require Import PyBase PySlice Sig ArgStore PyCall Heap Traverse Eq Eq_proofs.
 
 Record case := mkcase { c_env : sigenv; c_heap : heap; c_a : ref; c_b : ref; c_obs : bool }.
 
 Definition check_case (c : case) : bool :=
   wf_b (c_env c) (c_heap c)
+  && forallb (fun n => cls_keys_distinct (classify n)) (c_heap c)   (* keys_py_distinct: hypothesis of C06_eq_refl / C06_eq_sym *)
   && Bool.eqb (cfg_eq (c_env c) (c_heap c) (c_a c) (c_b c)) (c_obs c)
   (* symmetry and reflexivity of the model on this case *)
   && Bool.eqb (cfg_eq (c_env c) (c_heap c) (c_b c) (c_a c)) (c_obs c)
